@@ -40,5 +40,9 @@ def run(ctx, res):
     import fieldmodel
     fieldmodel.check_fields(prog, res, prop="C02")
     panics.check_residue_support(inv, res)
+    if ctx.tier == "thorough":
+        import crosscfg
+        crosscfg.rule_same_as_default_build(ctx, res, cl, "C02 closure")
+        crosscfg.rule_optimised_subset(ctx, res, cl, "C02 closure")
     res.extra["closure_functions"] = len(cl)
     res.extra["inventory"] = inv.stats
